@@ -110,6 +110,177 @@ def legacy_name_constants():
     return None
 
 
+def primitive_codecs():
+    """How the four primitives of utils.py pick their codec: for each, the argument expressions of the one
+    `.encode(...)` / `.decode(...)` call in its body and the parameters the body assigns to (a reader that
+    rebinds `encoding` no longer decodes with the codec the writer encoded with).
+    [(function, 'encode'|'decode'|'', [argument source, ...], [rebound parameter, ...])]"""
+    tree = ast.parse((SRC / "utils.py").read_text())
+    out = []
+    for prim in PRIMS:
+        fn = next((n for n in tree.body if isinstance(n, ast.FunctionDef) and n.name == prim), None)
+        if fn is None:
+            out.append((prim, "", [], ["<function not found>"]))
+            continue
+        params = {a.arg for a in fn.args.args + fn.args.kwonlyargs}
+        calls = [n for n in ast.walk(fn) if isinstance(n, ast.Call) and isinstance(n.func, ast.Attribute)
+                 and n.func.attr in ("encode", "decode")]
+        rebound = set()
+        for n in ast.walk(fn):
+            targets = []
+            if isinstance(n, ast.Assign):
+                targets = n.targets
+            elif isinstance(n, (ast.AugAssign, ast.AnnAssign)):
+                targets = [n.target]
+            elif isinstance(n, ast.NamedExpr):
+                targets = [n.target]
+            for t in targets:
+                for m in ast.walk(t):
+                    if isinstance(m, ast.Name) and m.id in params:
+                        rebound.add(m.id)
+        if len(calls) != 1:
+            out.append((prim, "", [f"<{len(calls)} codec calls>"], sorted(rebound)))
+            continue
+        c = calls[0]
+        args = [ast.unparse(a) for a in c.args] + [f"{k.arg}={ast.unparse(k.value)}" for k in c.keywords]
+        out.append((prim, c.func.attr, args, sorted(rebound)))
+    return out
+
+
+def reader_uses():
+    """What each call site does with the string a reader returns: 'assign' (bound to a name that the function
+    does not bind again afterwards), 'assign-rebound' (the name is bound again later: the value read is post-processed),
+    'argument' (passed straight to a constructor / append), 'return', or the source of the enclosing expression.
+    [(module, scope, primitive, use)]"""
+    out = []
+    for f in sorted(SRC.rglob("*.py")):
+        mod = str(f.relative_to(SRC))
+        if mod == "utils.py":
+            continue
+        tree = ast.parse(f.read_text())
+        parents = {}
+        for n in ast.walk(tree):
+            for c in ast.iter_child_nodes(n):
+                parents[c] = n
+
+        def scope_of(n):
+            names = []
+            while n in parents:
+                n = parents[n]
+                if isinstance(n, (ast.FunctionDef, ast.ClassDef)):
+                    names.append(n.name)
+            return ".".join(reversed(names))
+
+        def func_of(n):
+            while n in parents:
+                n = parents[n]
+                if isinstance(n, ast.FunctionDef):
+                    return n
+            return None
+
+        for n in ast.walk(tree):
+            if isinstance(n, ast.Call) and isinstance(n.func, ast.Name) and n.func.id in ("read_unicode_string", "read_pascal_string"):
+                par = parents.get(n)
+                if isinstance(par, ast.Assign) and len(par.targets) == 1 and isinstance(par.targets[0], ast.Name) and par.value is n:
+                    var = par.targets[0].id
+                    fn = func_of(n)
+                    later = 0       # the name is bound again after the read: the value read is post-processed
+                    for m in ast.walk(fn) if fn is not None else []:
+                        if isinstance(m, ast.Name) and m.id == var and isinstance(m.ctx, ast.Store) and m.lineno > par.lineno:
+                            later += 1
+                    use = "assign" if later == 0 else "assign-rebound"
+                elif isinstance(par, ast.Call) and n in par.args:
+                    use = "argument"
+                elif isinstance(par, ast.Return):
+                    use = "return"
+                else:
+                    use = ast.unparse(par)[:80] if par is not None else "?"
+                out.append((mod, scope_of(n), n.func.id, use))
+    return out
+
+
+def codec_pairs(sites):
+    """Per element class: the codecs its reader call sites name, in order, against the writer's.
+    [(module:scope with read/write blanked, [reader codecs], [writer codecs])]; a unicode primitive counts as 'utf-16'."""
+    import re
+    groups = {}
+    for mod, scope, prim, enc, _pad in sites:
+        key = mod + ":" + re.sub(r"(read|write)", "*", scope.rsplit(".", 1)[-1]).join([scope.rsplit(".", 1)[0] + ".", ""]) \
+            if "." in scope else mod + ":" + re.sub(r"(read|write)", "*", scope)
+        g = groups.setdefault(key, ([], []))
+        codec = "utf-16" if "unicode" in prim else (canon(enc) if enc not in ("", "param") else enc)
+        (g[0] if prim.startswith("read") else g[1]).append(codec)
+    return [(k, r, w) for k, (r, w) in groups.items()]
+
+
+def name_entry_points():
+    """Every function of api/layers.py and api/psd_image.py that stores a caller-supplied string as a layer name
+    (`LayerRecord(name=<parameter>)` or `<x>.name = <parameter>`), and whether it also stores the unicode layer
+    name block for it - through `set_data(Tag.UNICODE_LAYER_NAME, <parameter>)` or through the `name` setter -
+    unconditionally (a direct statement of the function body), conditionally (inside if / try / loop) or not at all.
+    [(scope, parameter, mechanism, guard)]"""
+    out = []
+    for rel in ("api/layers.py", "api/psd_image.py"):
+        f = SRC / rel
+        if not f.exists():
+            continue
+        tree = ast.parse(f.read_text())
+
+        def visit(node, scopes):
+            for ch in ast.iter_child_nodes(node):
+                if isinstance(ch, ast.ClassDef):
+                    visit(ch, scopes + [ch.name])
+                elif isinstance(ch, ast.FunctionDef):
+                    entry(ch, ".".join(scopes + [ch.name]))
+                    visit(ch, scopes + [ch.name])
+
+        def entry(fn, scope):
+            params = {a.arg for a in fn.args.args + fn.args.kwonlyargs} - {"self", "cls"}
+            named = set()
+            record_vars, layer_vars = set(), {"self"}
+            for n in ast.walk(fn):
+                if isinstance(n, ast.Assign) and isinstance(n.value, ast.Call) and len(n.targets) == 1 and isinstance(n.targets[0], ast.Name):
+                    callee = ast.unparse(n.value.func)
+                    if callee.endswith("LayerRecord"):
+                        record_vars.add(n.targets[0].id)
+                    elif callee == "cls" or callee.startswith("cls."):
+                        layer_vars.add(n.targets[0].id)
+            for n in ast.walk(fn):
+                if isinstance(n, ast.Call) and ast.unparse(n.func).endswith("LayerRecord"):
+                    for kw in n.keywords:
+                        if kw.arg == "name" and isinstance(kw.value, ast.Name) and kw.value.id in params:
+                            named.add(kw.value.id)
+                if isinstance(n, ast.Assign) and isinstance(n.value, ast.Name) and n.value.id in params:
+                    for t in n.targets:
+                        if isinstance(t, ast.Attribute) and t.attr == "name":
+                            named.add(n.value.id)
+            top = set(map(id, fn.body))
+            for v in sorted(named):
+                found = []
+                for n in ast.walk(fn):
+                    mech = None
+                    if isinstance(n, ast.Expr) and isinstance(n.value, ast.Call) and isinstance(n.value.func, ast.Attribute) \
+                            and n.value.func.attr == "set_data" and len(n.value.args) >= 2 \
+                            and ast.unparse(n.value.args[0]).endswith("UNICODE_LAYER_NAME") \
+                            and isinstance(n.value.args[1], ast.Name) and n.value.args[1].id == v:
+                        mech = "set_data"
+                    elif isinstance(n, ast.Assign) and isinstance(n.value, ast.Name) and n.value.id == v and len(n.targets) == 1 \
+                            and isinstance(n.targets[0], ast.Attribute) and n.targets[0].attr == "name" \
+                            and isinstance(n.targets[0].value, ast.Name) and n.targets[0].value.id in layer_vars \
+                            and n.targets[0].value.id not in record_vars and fn.name != "name":
+                        mech = "setter"
+                    if mech:
+                        found.append((mech, "always" if id(n) in top else "conditional"))
+                if not found:
+                    out.append((scope, v, "none", "absent"))
+                else:
+                    best = sorted(found, key=lambda x: x[1])[0]     # 'always' sorts before 'conditional'
+                    out.append((scope, v, best[0], best[1]))
+
+        visit(tree, [])
+    return out
+
+
 def charmap_table(name: str):
     t = []
     for i in range(256):
@@ -145,6 +316,27 @@ def gen_strings(ctx):
     lines.append("/-- `LayerRecord._legacy_name`: fallback strings returned and integer constants (empty when the method is absent) -/")
     lines.append("def legacyFallbacks : List (List Nat) := [" + ", ".join(lean_nat_list([ord(c) for c in s]) for s in (leg[0] if leg else [])) + "]")
     lines.append("def legacyBounds : List Nat := " + lean_nat_list(leg[1] if leg else []))
+    prims = primitive_codecs()
+    uses = reader_uses()
+    pairs = codec_pairs(sites)
+    entries = name_entry_points()
+    lstr = lambda xs: "[" + ", ".join(lean_str(x) for x in xs) + "]"
+    lines.append("/-- utils.py: (primitive, 'encode' | 'decode', the arguments of that codec call, parameters the body rebinds) -/")
+    lines.append("def primitiveCodecs : List (String × String × List String × List String) := [")
+    lines.append(",\n".join(f"  ({lean_str(a)}, {lean_str(b)}, {lstr(c)}, {lstr(d)})" for a, b, c, d in prims))
+    lines.append("]")
+    lines.append("/-- what each reader call site does with the string read -/")
+    lines.append("def readerUses : List (String × String × String × String) := [")
+    lines.append(",\n".join(f"  ({lean_str(a)}, {lean_str(b)}, {lean_str(c)}, {lean_str(d)})" for a, b, c, d in uses))
+    lines.append("]")
+    lines.append("/-- per element class: codecs named by its reader call sites, in order, and by its writer call sites -/")
+    lines.append("def codecPairs : List (String × List String × List String) := [")
+    lines.append(",\n".join(f"  ({lean_str(k)}, {lstr(r)}, {lstr(w)})" for k, r, w in pairs))
+    lines.append("]")
+    lines.append("/-- API functions that store a caller-supplied layer name: (scope, parameter, how the unicode block is stored, guard) -/")
+    lines.append("def nameEntryPoints : List (String × String × String × String) := [")
+    lines.append(",\n".join(f"  ({lean_str(a)}, {lean_str(b)}, {lean_str(c)}, {lean_str(d)})" for a, b, c, d in entries))
+    lines.append("]")
     lines.append("")
     for nm, codec in (("macRoman", "mac_roman"), ("macCyrillic", "mac_cyrillic")):
         lines.append(f"/-- `bytes([i]).decode('{codec}')` for i in 0..255 (0x110000 = undefined) -/")
@@ -153,4 +345,6 @@ def gen_strings(ctx):
     lines.append("end PsdVerif.Generated.Strings")
     ctx.write_generated("Strings", "\n".join(lines) + "\n")
     return {"sites": len(sites), "nameTestEncoding": canon(enc), "nameFallback": fallback, "nameBound": bound,
-            "legacy_name": leg, "site_list": [list(s) for s in sites]}
+            "legacy_name": leg, "site_list": [list(s) for s in sites],
+            "primitiveCodecs": [list(x) for x in prims], "nameEntryPoints": [list(x) for x in entries],
+            "readerUses": sorted({u[3] for u in uses}), "codecPairs": len(pairs)}
